@@ -37,7 +37,8 @@ deriving DecidableEq, Repr, Inhabited
     4 MANAGEMENT_INTERVENTION, 5 other -/
 structure Req where
   supi : Bytes
-  nf : Option Bytes    -- nfConsumerIdentification.nFName; none = nfConsumerIdentification absent
+  nf : Option Bytes    -- nfConsumerIdentification.nFName; none = no consumer identification the CHF accepts: the member is absent,
+                       -- or (for a session) the name has a path separator `/` (the driver maps such creates to none)
   cid : Int
   seq : Int
   uri : Bool           -- a notifyUri was given
